@@ -77,6 +77,17 @@ CLAIMS["C30"] = dict(
     technique=TECH,
 )
 
+CLAIMS["C28"] = dict(
+    category="proof",
+    text="py2pl followed by pl2py is proved to be the identity on all ints, all strings (including strings made of or "
+         "containing quote characters) and all floats that Constant's 15-decimal rounding leaves unchanged, with the "
+         "real bodies of both functions and of the Term/Constant constructors abstracted to the Term datatype. Nested "
+         "lists/tuples and problog_export are bounded stand-ins (generated nested values; an exported module called "
+         "from a program); two known findings (float precision, tuple whose last element is a tuple).",
+    design_ref="DESIGN.md section 2, C28",
+    technique=TECH,
+)
+
 NA = {
     "C22": "convergence of sample frequencies is a statistical limit, not a pre/post-condition of any call; a "
            "Hoeffding test would be statistical testing, a different technique family",
